@@ -611,6 +611,18 @@ fn convert_roundtrip_family(out: &mut Out) {
             out.cex(fam, format!("class=pep440-not-fixed-point {pep:?} re-converts to {pep2:?}"));
         }
     }
+    // SemVer-only paths: numbers up to u64::MAX ("u64 for SemVer-only paths")
+    for text in ["4294967296.2.3", "1.4294967296.3", "1.2.4294967296", "18446744073709551615.18446744073709551615.18446744073709551615",
+                 "1.2.3-epoch.4294967296", "1.2.3-rc.18446744073709551615", "1.2.3-post.4294967296.dev.18446744073709551615",
+                 "4294967296.0.0-alpha.4294967296+build.4294967296", "1.2.3+18446744073709551615"] {
+        out.cases += 1;
+        let Ok(sv) = SemVer::from_str(text) else { out.cex(fam, format!("canonical SemVer shape {text:?} is rejected by the SemVer parser")); continue; };
+        let z: Zerv = sv.into();
+        let back = SemVer::from(z).to_string();
+        if back != text {
+            out.cex(fam, format!("class=semver-not-unchanged {text:?} -> Zerv -> SemVer prints {back:?}"));
+        }
+    }
     // accepted PEP 440 strings: fixed point of re-conversion; with at most three release numbers: to SemVer and back to an equal version
     let mut peps: Vec<String> = Vec::new();
     for rel in ["1", "1.2", "1.2.3", "0.0.0", "1.2.3.4", "1.0.0.0.5", "4294967295.0.1"] {
